@@ -129,6 +129,18 @@ theorem frame_depositPass1 (p : Pool) (c : Nat) (isLocal : Bool) (hc : c ≤ max
           (frame_accountAdd ‹accountAdd _ _ _ = Except.ok _›)).trans f
       | exact f
 
+theorem frame_depositLocal {s : State} {p : Pool} {c : Nat} {d : Deposit} {isLocal : Bool} {r : State × Pool}
+    (hc : c ≤ maxChainId) (h : depositLocal s p c d isLocal = .ok r) : SellFrame s r.1 := by
+  unfold depositLocal at h
+  split at h
+  · split at h
+    · cases h
+    · split at h
+      · cases h
+      · injection h with h; subst h
+        exact frame_poolSub (holdingId_lt hc) ‹poolSub s _ _ = Except.ok _›
+  · injection h with h; subst h; exact SellFrame.refl _
+
 theorem frame_depositPass2 (dl td c : Nat) (isLocal : Bool) (hc : c ≤ maxChainId) (ds : List (Deposit × Bool)) (st st' : P2)
     (h : depositPass2 dl td c isLocal ds st = .ok st') : SellFrame st.s st'.s := by
   induction ds generalizing st with
@@ -138,25 +150,49 @@ theorem frame_depositPass2 (dl td c : Nat) (isLocal : Bool) (hc : c ≤ maxChain
     cases acc
     · unfold depositPass2 at h; have f := ih _ h; exact f
     · unfold depositPass2 at h
-      simp only [bind, Except.bind, pure, Except.pure, throw, throwThe, MonadExceptOf.throw] at h
-      repeat' (split at h <;> try (cases h; done))
-      all_goals (have f := ih _ h)
-      all_goals first
-        | exact (frame_poolSub (holdingId_lt hc) ‹poolSub st.s _ _ = Except.ok _›).trans f
-        | exact f
+      split at h
+      · cases h
+      · split at h
+        · cases h
+        · split at h
+          · cases h
+          · have f := ih _ h
+            exact (frame_depositLocal hc ‹depositLocal _ _ _ _ _ = Except.ok _›).trans f
+
+theorem frame_mintDeposits {p1 : P1} {p : Pool} {ds : List Deposit} {c x y : Nat} {isLocal persist : Bool} {l : Ledger}
+    (hc : c ≤ maxChainId) (h : mintDeposits p1 p ds c x y isLocal persist = .ok l) : SellFrame p1.s l.s := by
+  unfold mintDeposits at h
+  split at h
+  · cases h
+  · split at h
+    · cases h
+    · split at h
+      · cases h
+      · split at h
+        · cases h
+        · injection h with h; subst h
+          have f2 := frame_depositPass2 _ _ _ _ hc _ _ _ ‹depositPass2 _ _ _ _ _ _ = Except.ok _›
+          dsimp only
+          split
+          · exact f2.trans (frame_setPool _ _ _ (liquidityId_lt hc))
+          · exact f2
 
 theorem frame_batchDepositCore {s : State} {ds : List Deposit} {c x y : Nat} {isLocal : Bool} {p0 : Option Pool} {persist : Bool}
     {l : Ledger} (hc : c ≤ maxChainId) (h : batchDepositCore s ds c x y isLocal p0 persist = .ok l) : SellFrame s l.s := by
-  dex_unfold batchDepositCore at h
-  repeat' (split at h <;> try (cases h; done))
-  all_goals (injection h with h; subst h)
-  all_goals (try have f1 := frame_depositPass1 _ _ _ hc _ _ _ ‹depositPass1 _ _ _ _ _ = Except.ok _›)
-  all_goals (try have f2 := frame_depositPass2 _ _ _ _ hc _ _ _ ‹depositPass2 _ _ _ _ _ _ = Except.ok _›)
-  all_goals first
-    | exact SellFrame.refl _
-    | exact f1
-    | exact (f1.trans f2).trans (frame_setPool _ _ _ (liquidityId_lt hc))
-    | exact f1.trans f2
+  unfold batchDepositCore at h
+  dsimp only at h
+  split at h
+  · injection h with h; subst h; exact SellFrame.refl _
+  · split at h
+    · cases h
+    · split at h
+      · injection h with h; subst h; exact SellFrame.refl _
+      · split at h
+        · cases h
+        · have f1 := frame_depositPass1 _ _ _ hc _ _ _ ‹depositPass1 _ _ _ _ _ = Except.ok _›
+          split at h
+          · injection h with h; subst h; exact f1
+          · exact f1.trans (frame_mintDeposits hc h)
 
 theorem bind_ok {α β : Type} {m : M α} {f : α → M β} {r : β} (h : (m >>= f) = .ok r) : ∃ a, m = .ok a ∧ f a = .ok r := by
   cases m with
